@@ -107,10 +107,11 @@ class Node:
         for mod, name, orig in self.patches:
             setattr(mod, name, orig)
 
-    def run(self, chunks):
+    def run(self, chunks, timeout_at=None):
         from frappy.protocol.interface.tcp import TCPRequestHandler
         from vf.nodekit import quiet_handler
         sock = FakeSock(chunks)
+        sock.timeout_at = timeout_at
         quiet_handler()
         TCPRequestHandler(sock, ('127.0.0.1', 1), FakeTcpServer(self.kit))
         return sock
@@ -187,7 +188,8 @@ def stream_case(draw):
         lines.append(b'ping ' + b'f' * need)
         tail = b''
     cuts = [sorted(set(draw(st.lists(st.integers(1, 4000), max_size=6)))) for _ in range(3)]
-    return {'kind': 'stream', 'lines': [x.hex() for x in lines], 'tail': tail.hex(), 'cuts': cuts, 'mutated': mutated}
+    return {'kind': 'stream', 'lines': [x.hex() for x in lines], 'tail': tail.hex(), 'cuts': cuts, 'mutated': mutated,
+            'send_timeout': draw(st.sampled_from([None, None, 0, 1, 2, 3]))}
 
 
 def split_line(raw):
@@ -393,6 +395,22 @@ def check_stream(ctx, case):
         else:
             ctx.ok('segmentation-independent')
         judge(ctx, case, lines, outs[0])
+        if case.get('send_timeout') is not None and outs[0]:
+            # the peer stops reading: a send times out after a part of a line went out. nothing may follow on this connection
+            # (the next message would be glued to the fragment)
+            ctx.ev()
+            n2 = Node()
+            try:
+                sock2 = n2.run([stream, b'ping sentinel\n'], timeout_at=case['send_timeout'])
+            finally:
+                n2.close()
+            cut = getattr(sock2, 'cut_at', None)
+            if cut is None:
+                ctx.label('send-timeout:not-reached')
+            elif len(sock2.out) > cut:
+                ctx.finding('send-timeout:output-continues-after-a-cut-line', case, f'{sock2.out[max(0, cut - 40):cut + 60]!r}')
+            else:
+                ctx.ok('send-timeout-ends-connection')
         ctx.sample({'lines': [x[:60].decode('latin-1') for x in lines], 'segmentations': len(segs), 'output': outs[0][:300].decode('latin-1')}, every=199)
     finally:
         node.close()
